@@ -1661,9 +1661,9 @@ class Sequential(Context):
         except Exception as err:
             raise VisitException(self, err)
 
-    def visit_objects(self, operation: Callable):
+    def visit_objects(self, operation: Callable, *, include_always=True):
         try:
-            if self._always_expr is not None:
+            if include_always and self._always_expr is not None:
                 self._always_expr.code().visit_objects(operation)
 
             if isinstance(self._sensitivity, _SensitivityList):
@@ -1746,8 +1746,20 @@ class EntityTemplate(Block):
             return obj
 
         for ctx in self.all_contexts():
-            current_ctx = ctx
-            ctx.visit_objects(check_usage)
+            always_expr = getattr(ctx, "_always_expr", None)
+
+            if always_expr is None:
+                current_ctx = ctx
+                ctx.visit_objects(check_usage)
+            else:
+                # The always block of a sequential context is emitted as a
+                # separate concurrent block in front of the process. It is a
+                # driver of its own: a signal written there must not also be
+                # written in the body of the context.
+                current_ctx = always_expr
+                always_expr.visit_objects(check_usage)
+                current_ctx = ctx
+                ctx.visit_objects(check_usage, include_always=False)
 
         for block in self.all_blocks():
             if isinstance(block, Entity):
